@@ -147,6 +147,30 @@ int main(int argc, char ** argv) {
                 auto q = pi(user);
                 outQ(o, q);
             }
+        } else if (kind == "via") {
+            // <h> <tol> <T> <R> <v0 list (size S)> <nacts>: ValueIteration started from a ValueFunction whose
+            // action vector has nacts (< S) entries
+            const unsigned h = (unsigned) c.nextSize();
+            const double tol = c.nextDouble();
+            T3 t = readT3(c, S, A), r = readT3(c, S, A);
+            std::vector<double> v0 = c.nextDoubles();
+            const size_t nacts = c.nextSize();
+            if (nacts > S) throw std::logic_error("via: nacts > S would write out of bounds");
+            Model dense(S, A, t, r, gamma);
+            ValueFunction start{Values(Eigen::Map<const Vector>(v0.data(), v0.size())), Actions(nacts, 0)};
+            ValueIteration vi(h, tol, start);
+            auto [var, vf, q] = vi(dense);
+            o << var; outV(o, vf.values); o.list(vf.actions); outQ(o, q);
+        } else if (kind == "pi") {
+            // <h> <tol> <bits-per-sweep (driver only)> <T> <R>: PolicyIteration on the dense and the user model
+            const unsigned h = (unsigned) c.nextSize();
+            const double tol = c.nextDouble();
+            (void) c.nextSize();
+            T3 t = readT3(c, S, A), r = readT3(c, S, A);
+            Model dense(S, A, t, r, gamma);
+            UserModel user(S, A, t, r, gamma);
+            { PolicyIteration pi(h, tol); outQ(o, pi(dense)); }
+            { PolicyIteration pi(h, tol); outQ(o, pi(user)); }
         } else if (kind == "learn") {
             // <h> <tol> <n> (s a s1 rew)*n : MaximumLikelihoodModel<Experience> synced from a history
             const unsigned h = (unsigned) c.nextSize();
